@@ -39,6 +39,14 @@ class ExprMixin:
         unify(tf, tt, node, what)
         return s
 
+    def resolve_record(self, t, member, node):
+        """a value of still unknown type on which `.member` is used: the declared record class that has this member"""
+        if kind(t) != "var":
+            return
+        cands = [n for n, r in self.mod.records.items() if member in dict(r["fields"]) or member in r["getters"]]
+        if len(cands) == 1:
+            unify(t, TObj(cands[0]), node, "receiver of .%s" % member)
+
     def need(self, t, kinds, node, what):
         k = kind(t)
         if k == "var":
@@ -77,9 +85,16 @@ class ExprMixin:
     def ex_Attribute(self, e):
         if isinstance(e.value, ast.Name) and e.value.id == "self" and self.fn.is_method:
             if e.attr not in self.mod.fields:
-                raise Unsupported("attribute self.%s is never assigned in the class" % e.attr, e)
+                raise Unsupported("attribute self.%s is %s" % (e.attr, "not declared in the spec (fields) of this slice"
+                                                                if "fields" in self.mod.spec else "never assigned in the class"), e)
             return "self.%s" % ident(e.attr), self.mod.fields[e.attr]
         s, t = self.ex(e.value)
+        self.resolve_record(t, e.attr, e)
+        if kind(t) == "obj" and t.find().name in self.mod.records:
+            fields = dict(self.mod.records[t.find().name]["fields"])
+            if e.attr in fields:
+                return "%s.%s" % (s, ident(e.attr)), fields[e.attr]
+            raise Unsupported("attribute .%s is not declared for the record class %s" % (e.attr, t.find().name), e)
         if kind(t) == "obj" and t.find().name.startswith("PyRt.") and t.find().name[5:] in self.mod.ext_classes:
             fields = dict(self.mod.ext_classes[t.find().name[5:]])
             if e.attr in fields:
